@@ -53,6 +53,9 @@ func vkApplyReal(b *BlockList, o vkPOp) int {
 		return b.SetBatch(o.Keys)
 	case "removebatch":
 		return b.RemoveBatch(o.Keys)
+	case "refresh": // the one-off start-up refresh itself (no remote lists configured; unit "refresh" removes its 1 s start delay by an overlay patch)
+		b.refreshRemote()
+		return 0
 	}
 	panic("vk: unknown op " + o.Op)
 }
